@@ -5,3 +5,4 @@ import RFV.Model.Validate
 import RFV.Model.Sem
 import RFV.Model.Fp
 import RFV.Model.Cache
+import RFV.Model.Decision
